@@ -246,6 +246,16 @@ class Interp:
 
     def stmt(self, s, st):
         out = []
+        if isinstance(s, ast.Expr) and isinstance(s.value, ast.YieldFrom):
+            # delegation to another generator of the same object: its steps are this generator's steps
+            if isinstance(s.value.value, ast.Call):
+                for v, s2 in self._vals(s.value.value, st, out, s):
+                    if isinstance(v, Unknown):
+                        self.unknowns.append("yield from")
+                    out.append(("next", None, s2, None))
+                return out
+            self.unknowns.append("yield from")
+            return [("next", None, st, None)]
         if isinstance(s, ast.Expr) and isinstance(s.value, ast.Yield):
             # a generator step: the yielded value and the object's state at that moment are recorded; `yield_hook(interp, value, state)`
             # (when set) plays the consumer and returns the states in which the generator is resumed
